@@ -38,9 +38,13 @@ def run(ck):
     r2 = ck.tlc("ScriptAPI", CFG % ('"a", "len"', "MCVals2", 5 if quick else 7), workers=1, name="api-builtin-name", timeout=3000, xmx="12g")
     if r2.violated:
         raise vlib.Infra("ScriptAPI.tla violates %s" % r2.violated)
+    # a third exploration over one name with the larger value universe: a float that is Tengo-equal to an int, an empty map
+    r3 = ck.tlc("ScriptAPI", CFG % ('"a"', "MCVals3", 6 if quick else 7), workers=1, name="api-values", timeout=3000, xmx="12g")
+    if r3.violated:
+        raise vlib.Infra("ScriptAPI.tla violates %s" % r3.violated)
     cases = []
     seen = set()
-    for c in r.tagged("CASE") + [c for c in r2.tagged("CASE") if any("len" in json.dumps(x["args"]) for x in c["calls"])]:
+    for c in r.tagged("CASE") + [c for c in r2.tagged("CASE") if any("len" in json.dumps(x["args"]) for x in c["calls"])] + r3.tagged("CASE"):
         key = json.dumps(c, sort_keys=True)
         if key in seen:
             continue
